@@ -62,6 +62,12 @@ def check_record(case, rec, value, args_after, out, backend):
         return
     # (b) exec in an empty namespace + listed constants
     consts = re.findall(r"^# Constant (const\d+):", text, flags=re.M)
+    used = set(re.findall(r"\bconst\d+\b", "\n".join(l for l in text.splitlines() if not l.lstrip().startswith("#"))))
+    if consts:
+        out.count("records_with_constants")
+    if used != set(consts):
+        out.violation({"kind": "header-constants-differ-from-body"}, {"case": cj, "text": text, "header": sorted(consts), "body": sorted(used)}, f"the header announces constants {sorted(consts)} but the body uses {sorted(used)}")
+        return
     ns = {}
     g = getattr(rec.fn, "__globals__", {})
     for c in consts:
@@ -123,17 +129,33 @@ def run(spec, out):
     from ..gen import cases as G
     from .. import exec as X
     from .. import hooks
-    from ..capture import capture, fresh_args
+    from ..capture import capture, fresh_args, same_value
 
     rng = random.Random(spec["seed"])
     nprng = np.random.default_rng(spec["seed"])
     P = {"maxlen": spec["maxlen"]}
     fams = G.FAMILIES + ["update"]
     hooks.install()
+    ring = []  # earlier compilations: (compiled function, case, value it returned then)
+
+    def adapted_for(case):
+        """Some cases go through an adapter of a user function, so that the graph carries Constant nodes (fresh adapter = fresh cache)."""
+        if case.family == "reduce" and case.op in ("sum", "max", "min", "prod") and "keepdims" not in case.call_kwargs():
+            base = getattr(np, case.op)
+            return einx.numpy.adapt_numpylike_reduce(lambda x, axis, base=base: base(x, axis=axis))
+        if case.family == "elementwise" and len(case.inputs) == 2 and case.op in ("add", "subtract", "multiply", "maximum"):
+            base = getattr(np, case.op)
+            return einx.numpy.adapt_numpylike_elementwise(lambda a, b, base=base: base(a, b))
+        return None
+
     for i in range(spec["n"]):
         case = G.generate(rng, nprng, family=rng.choice(fams), P=P)
         b = rng.choice([None, None, "numpy.numpylike", "numpy.einsum"])
-        status, val, rec, args_after = capture(case, b)
+        fn_adapted = adapted_for(case) if rng.random() < 0.6 else None
+        if fn_adapted is not None:
+            b = None
+            out.count("adapter_cases")
+        status, val, rec, args_after = capture(case, b, fn=fn_adapted)
         out.evaluation()
         out.count(f"family:{case.family}")
         if rec is None or rec.code is None:
@@ -142,20 +164,36 @@ def run(spec, out):
         if i < 2:
             out.sample({"case": case.to_json(), "backend": b, "text": rec.code})
         # (a1) graph=True returns the text of the same cache entry
-        st2, text2 = X.einx_call(case, b, fresh_args(case), graph=True)
+        st2, text2 = X.einx_call(case, b, fresh_args(case), graph=True, fn=fn_adapted)
         if st2 == "ok":
             if text2 != rec.code:
                 out.violation({"kind": "graph-true-text-differs-from-cached"}, {"case": case.to_json(), "cached": rec.code, "returned": text2}, f"graph=True text differs from the compiled entry for {case.op}({case.desc()!r})")
             else:
                 out.count("graph_true_matches")
         check_record(case, rec, val if status == "ok" else None, args_after, out, b)
+        # compiled functions are isolated from later compilations: an earlier one, called again, still returns what it returned then
+        if ring:
+            fn0, case0, val0 = ring[rng.randrange(len(ring))]
+            try:
+                again = ("ok", fn0(*fresh_args(case0)))
+            except Exception as e:  # noqa
+                again = ("exc", type(e).__name__)
+            if again[0] != "ok" or not same_value(again[1], val0):
+                out.violation({"kind": "compiled-function-changed-by-later-compilation"}, {"earlier": case0.to_json(), "later": case.to_json(), "text_of_later": rec.code},
+                              f"the function compiled earlier for {case0.op}({case0.desc()!r}) behaves differently after compiling {case.op}({case.desc()!r}): {again[0]} {again[1] if again[0] == 'exc' else ''}")
+            else:
+                out.count("earlier_function_unchanged")
+        if status == "ok" and rec.fn is not None and callable(rec.fn):
+            ring.append((rec.fn, case, val))
+            if len(ring) > 12:
+                ring.pop(rng.randrange(len(ring)))
     from . import c04_synth
     c04_synth.run_synthetic(spec, out, rng)
 
 
 def finalize(agg, tier, seed):
     c = agg.counters
-    for k in ("records", "audit_exec_matches", "function_matches_text", "graph_true_matches", "compiled_equals_interpreted", "synthetic_checked"):
+    for k in ("records", "audit_exec_matches", "function_matches_text", "graph_true_matches", "compiled_equals_interpreted", "synthetic_checked", "records_with_constants", "earlier_function_unchanged", "synthetic_earlier_function_unchanged"):
         if c.get(k, 0) < 50:
             agg.inconclusive.append(f"monitor counter {k} = {c.get(k, 0)}")
     return {"node_kinds": {k[5:]: int(v) for k, v in c.items() if k.startswith("node:")}}
